@@ -183,18 +183,31 @@ def walkCmd (t : Sexp) : Sexp :=
       | .fuel => .list [.atom "fuel"]
     .list [.list [.atom "wf", Sexp.ofBool wfOk], res]
 
+def execDispatch (store entry exts esc globals vars data fuel : Sexp) : Sexp :=
+  match execCmd store entry exts esc globals vars data fuel with
+  | .ok r => r
+  | .error msg =>
+    let clean := ((msg.replace " " "-").replace "(" "").replace ")" ""
+    .list [.atom "unsupported", .atom ("reader:" ++ clean)]
+
+/-- C10: a history of Execute calls.  The model keeps nothing between executions: every call is
+    answered from its own inputs (`Eval.execute`), whatever ran before. -/
+def historyCmd (calls : List Sexp) : Sexp :=
+  let rs := calls.map fun c => match c with
+    | .list [.atom "call", _, .list [.atom "exec", store, entry, exts, esc, globals, vars, data, fuel]] =>
+      execDispatch store entry exts esc globals vars data fuel
+    | _ => .atom "bad-op"
+  .list (.atom "results" :: rs)
+
 def dispatch : Sexp → Sexp
+  | .list (.atom "history" :: calls) => historyCmd calls
   | .list [.atom "walk", .list [.atom "n", _, .atom "ParseError"]] => .list [.atom "parse-error"]
   | .list [.atom "walk", t] => walkCmd t
   | .list (.atom "setm" :: .atom dev :: .list (.atom "exts" :: exts) :: ops) => setmCmd (dev == "true") (bytesList exts) ops
   | .list (.atom "inmem" :: ops) => inmemCmd ops
   | .list [.atom "multi", .list loaders, .list queries] => multiCmd loaders queries
   | .list [.atom "exec", store, entry, exts, esc, globals, vars, data, fuel] =>
-    match execCmd store entry exts esc globals vars data fuel with
-    | .ok r => r
-    | .error msg =>
-      let clean := ((msg.replace " " "-").replace "(" "").replace ")" ""
-      .list [.atom "unsupported", .atom ("reader:" ++ clean)]
+    execDispatch store entry exts esc globals vars data fuel
   | .list [.atom "lex", .bytes l, .bytes r, .bytes lc, .bytes rc, .bytes input] => lexCmd l r lc rc input
   | .list [.atom "path-clean", .bytes p] => .bytes (Path.clean p)
   | .list (.atom "path-join" :: rest) =>
